@@ -22,11 +22,14 @@ for mf in sorted(glob.glob(os.path.join(VERIF, "seeded", "*", "meta.json"))):
         final = "not claimed (see note)"
     elif rc:
         final = "caught" if rc.get("exit") == 1 else "**MISSED**"
+        if final == "caught" and rc.get("check") not in (None, m["property"]):
+            final = "caught by %s" % rc["check"]
         if rc.get("first"):
             first = rc["first"][0].split(": ")[0].lstrip("# ")
     else:
         final = "caught" if m["property"] in m.get("caught_by", []) \
-            else "**MISSED**"
+            else ("caught by %s" % m["caught_by"][0] if m.get("caught_by")
+                  else "**MISSED**")
     at_first = ", ".join(m.get("caught_by", [])) or "nothing"
     rows.append((m["id"], m["property"] + (" (written for %s)" % m["written_for"]
                                            if m.get("written_for") else ""),
@@ -41,8 +44,10 @@ out = ["## 7. Detection record", "",
        "fails on the changed tree (`tools/seed.py`). 'when first seeded' = the quick-tier",
        "checks that exited 1 with the change applied at that time ('nothing' = it was",
        "missed and the check was strengthened afterwards); 'final' = the quick check of",
-       "the change's own property, re-run against the final machinery",
-       "(`tools/recheck_seeds.py`); 'key' = the first violation key reported.", "",
+       "the change's own property - or, where the effect the change has belongs to",
+       "another property ('caught by Cxx'), that property's check - re-run against the",
+       "final machinery (`tools/recheck_seeds.py`); 'key' = the first violation key",
+       "reported.", "",
        "| seeded change | property | what it is | when first seeded | final | key |",
        "|---|---|---|---|---|---|"]
 for r in rows:
@@ -50,8 +55,10 @@ for r in rows:
 out.append("")
 n_first = sum(1 for r in rows if r[1].split(" ")[0] in r[3])
 out.append("%d changes; %d were caught by the check of their own property when first "
-           "seeded, %d are caught by it now, %d are missed, %d not claimed." % (
+           "seeded, %d are caught by it now, %d by the check of the property that owns "
+           "their effect, %d are missed, %d not claimed." % (
                len(rows), n_first, sum(1 for r in rows if r[4] == "caught"),
+               sum(1 for r in rows if r[4].startswith("caught by")),
                sum(1 for r in rows if "MISSED" in r[4]),
                sum(1 for r in rows if r[4].startswith("not claimed"))))
 out.append("")
